@@ -275,8 +275,11 @@ def run_check(prop, lens, args, seed, known, t0):
     }
     if herrs:
         ev["coverage"]["harness_errors"] = herrs[:5]
-    os.makedirs(os.path.join(world.VERIF, "evidence"), exist_ok=True)
-    with open(os.path.join(world.VERIF, "evidence", f"{prop}.json"), "w") as f:
+    # evidence/ describes /repo; a run against another tree (PTERA_SRC: seeded changes, canaries,
+    # pinning on an older commit) leaves its record next to the replays instead
+    evdir = "evidence" if os.path.abspath(world.PTERA_SRC) == "/repo" else os.path.join("replays", "evidence-other-tree")
+    os.makedirs(os.path.join(world.VERIF, evdir), exist_ok=True)
+    with open(os.path.join(world.VERIF, evdir, f"{prop}.json"), "w") as f:
         json.dump(ev, f, indent=1, default=repr)
     for ln in out_lines:
         print(ln)
